@@ -51,8 +51,8 @@ REQUIRED_CLASSES = (['num-op:' + o for o in '+-*/'] + ['num-par', 'num-ref', 'nu
                      'log-equal-within-band', 'log-unequal-beyond-band', 'log-units-differ', 'log-custom-unit-env'] +
                     ['tpl-ref', 'tpl-slice', 'tpl-slice-range', 'tpl-slice-index', 'tpl-format', 'tpl-slice-and-format',
                      'tpl-str-default', 'tpl-plain-brace'] +
-                    ['via-solver', 'via-node', 'program', 'modified-reference', 'modified-reference:mul', 'modified-reference:logical', 'modified-reference:template', 'modified-reference:solver-call', 'modified-reference:declared-then-assigned', 'node-vs-node-comparison', 'node-vs-node:int-left-converts-to-non-integer', 'node-vs-node:left-int-right-float', 'node-vs-node:left-float-right-int', 'node-vs-node:bool-node', 'node-vs-node:case', 'node-vs-node:condition', 'node-vs-node:solver-call'])
-REQUIRED_MONITORS = ['node_vs_node_programs', 'modified_reference_programs', 'solver_results_compared', 'node_results_compared', 'step_guard_runs']
+                    ['via-solver', 'via-node', 'program', 'modified-reference', 'modified-reference:mul', 'modified-reference:logical', 'modified-reference:template', 'modified-reference:solver-call', 'modified-reference:declared-then-assigned', 'node-vs-node-comparison', 'node-vs-node:int-left-converts-to-non-integer', 'node-vs-node:left-int-right-float', 'node-vs-node:left-float-right-int', 'node-vs-node:bool-node', 'node-vs-node:case', 'node-vs-node:condition', 'node-vs-node:solver-call', 'dimensionless-result', 'dimensionless-result:%', 'dimensionless-result:custom-dozen', 'dimensionless-result:m-must-fail', 'dimensionless-result:none'])
+REQUIRED_MONITORS = ['dimensionless_result_programs', 'node_vs_node_programs', 'modified_reference_programs', 'solver_results_compared', 'node_results_compared', 'step_guard_runs']
 ASSUMPTIONS = [
     'unit factors come from a hand-written table of exact SI factors (mm cm dm m km mg g kg ms s min h N kN J kJ mJ W kW) '
     'plus the $units of the generated text; the repo\'s tables are never read',
@@ -109,6 +109,9 @@ def cases(rng, tier, shard, nshards, ctx):
         if i % 8 == 4:
             from vt.props import c18_modref
             yield c18_modref.gen_nodecmp(rng)
+        if i % 16 == 2:
+            from vt.props import c18_modref
+            yield c18_modref.gen_dimless(rng)
 
 
 def gen_num(rng):
@@ -271,6 +274,9 @@ def run_case(case, ctx):
         elif case['t'] == 'nodecmp':
             from vt.props import c18_modref
             out = c18_modref.run_nodecmp(case, ctx, parse_text)
+        elif case['t'] == 'dimless':
+            from vt.props import c18_modref
+            out = c18_modref.run_dimless(case, ctx, parse_text)
         else:
             out = {'num': run_num, 'log': run_log, 'tpl': run_tpl, 'prog': run_prog}[case['t']](case, ctx)
     finally:
